@@ -7,6 +7,6 @@ cSess == << [steps |-> 3, place |-> TRUE, exec |-> TRUE, maxN |-> 3, maxH |-> 1,
             [steps |-> 4, place |-> TRUE, exec |-> TRUE, maxN |-> 2, maxH |-> 2, rate |-> 2],
             [steps |-> 2, place |-> TRUE, exec |-> FALSE, maxN |-> 2, maxH |-> 1, rate |-> 1],
             [steps |-> 4, place |-> TRUE, exec |-> TRUE, maxN |-> 3, maxH |-> 1, rate |-> 1] >>
-cPrices == {32, 36, 38, 40, 42, 44, 48}
+cPrices == {32, 37, 40, 43, 48}
 cHalt == [on |-> TRUE, targets |-> {1, 2}, num |-> 1, den |-> 16, len |-> 2]
 ====
